@@ -93,7 +93,8 @@ template <class X> void run(Ctx& c, const Str& Ss, const Str& Bs, const char* ge
         Str snapS = deep_snapshot<X>(S.u), snapB = deep_snapshot<X>(B.u);
         UriBox<X> D; memset(&D.u, 0xEE, sizeof D.u); int rc;
         c.stage((uint64_t)variant + 1);
-        { LibScope ls; if (variant < 2) rc = X::RemoveBaseUri(&D.u, &S.u, &B.u, root ? URI_TRUE : URI_FALSE); else { D.led = &led; rc = X::RemoveBaseUriMm(&D.u, &S.u, &B.u, root ? URI_TRUE : URI_FALSE, led.mgr()); } }
+        const typename X::Uri* src = (Ss == Bs && variant == 0) ? &B.u : &S.u;      // source and base the very same object
+        { LibScope ls; if (variant < 2) rc = X::RemoveBaseUri(&D.u, src, &B.u, root ? URI_TRUE : URI_FALSE); else { D.led = &led; rc = X::RemoveBaseUriMm(&D.u, &S.u, &B.u, root ? URI_TRUE : URI_FALSE, led.mgr()); } }
         c.evaluations++;
         Str what = fmt("source=\"%s\" base=\"%s\" %s", esc(Ss).c_str(), esc(Bs).c_str(), root ? "domain-root" : "relative");
         if (deep_snapshot<X>(S.u) != snapS || deep_snapshot<X>(B.u) != snapB) c.violation("C12", fmt("shorten/%s/const-argument-modified", X::tag()), what);
@@ -157,7 +158,7 @@ static void run_case(Ctx& c, uint64_t idx) {
         Rng& r = c.rng; gen = "random";
         B = gen_abs_base(r);
         switch (r.below(5)) {
-        case 0: S = gen_abs_base(r); break;
+        case 0: S = r.chance(1, 6) ? B : gen_abs_base(r); break;
         case 1: { UriGenOpts o; o.scheme = 1; o.dotHeavy = false; S = gen_uri(r, o); } break;
         case 2: S = mutate(r, B, 1); gen = "mutated-base"; break;
         case 3: { // same authority, overlapping paths
